@@ -401,7 +401,7 @@ func (c *Ctx) checkFileAppenderSemantics(r *Report, ro *Roles, rule string) map[
 				break
 			}
 			if out != "ok" {
-				if harnessPanic(panicError{strings.TrimPrefix(out, "run-time panic: ")}) && stp.op == "start" {
+				if harnessPanic(panicError{why: strings.TrimPrefix(out, "run-time panic: ")}) && stp.op == "start" {
 					oodWhy = "the evaluation could not build the appender (" + out + ")"
 					break
 				}
